@@ -162,6 +162,11 @@ def parseSubIds (s : String) : List Nat :=
 def step (_ : Unit) (line : String) : Unit × String :=
   let out : String :=
     match words line with
+    | ["keep", v, h] =>
+      -- decoded packets are values: keeping them while other codec calls run changes nothing
+      match verOf v, (h.splitOn ",").mapM unhex with
+      | some ver, some datas => "keep " ++ String.intercalate " | " (datas.map (decLine ver))
+      | _, _ => "bad-op"
     | [op, v, h] =>
       match verOf v, unhex h with
       | some ver, some data =>
